@@ -14,6 +14,10 @@ package ctxcheck
 //                                                third pair (state copy, EpochsContext.Clone()) likewise (diff:clone…)
 //         hyps=ok                                (the Lean side evaluates the step theorems' hypotheses here)
 //         <abbreviated dump of the live context> compared with Lean's incremental model AND Lean's ctxOf(state)
+//       `retain` keeps (copy of the live state, liveContext.Clone()) for later; `sibling` advances such a pair along
+//       another continuation (empty slots across epoch boundaries / upgrades) while the live pair follows the blocks;
+//       `recheck` re-dumps a retained pair (root, fresh=…, dump) at later moments: a clone must keep matching ITS state
+//       whatever the other clones do.
 
 import (
 	"bufio"
@@ -138,7 +142,79 @@ func gen(o hreg.Opts, w *bufio.Writer) error {
 			return nil
 		}
 		prevFork := c.Fork()
+		// Retained pairs: copies of older states whose contexts (EpochsContext.Clone() of the live one, on the exec
+		// side) are kept while the live pair and the other clones move on — the situation of a chain TREE (fork
+		// choice keeps a context per block). `sibling` advances a retained pair along a DIFFERENT continuation
+		// (empty slots, over epoch boundaries / upgrades); `recheck` re-dumps a retained pair later on.
+		type gret struct {
+			st   *beacon.StandardUpgradeableBeaconState
+			root common.Root
+		}
+		var kept []*gret
+		recheckAll := func(why string) {
+			for _, r := range kept {
+				fmt.Fprintf(w, "recheck x_r=%s\n", hx(r.root))
+				st.Add("op", "recheck")
+				st.Add("recheck-at", why)
+			}
+		}
+		retain := func(why string) {
+			if len(kept) >= 4 {
+				return
+			}
+			kept = append(kept, &gret{st: chain.WrapState(c.State), root: root})
+			fmt.Fprintf(w, "retain x_pre=%s\n", hx(root))
+			st.Add("op", "retain")
+			st.Add("retain-at", why)
+		}
+		sibling := func() error {
+			if len(kept) == 0 {
+				return nil
+			}
+			r := kept[rng.Intn(len(kept))]
+			cur, err := r.st.Slot()
+			if err != nil {
+				return err
+			}
+			to := (uint64(cur)/spe+1)*spe + uint64(rng.Intn(2)) // over the next epoch boundary
+			if rng.Intn(4) == 0 {
+				to = uint64(cur) + 1
+			}
+			// the generator computes the continuation with a context of its own, made from scratch
+			epc, err := chain.FreshEpc(spec, r.st)
+			if err != nil {
+				return nil
+			}
+			preFork := chain.ForkOfState(r.st)
+			if err := common.ProcessSlots(context.Background(), spec, epc, r.st, common.Slot(to)); err != nil {
+				return nil
+			}
+			f, err := flat.From(spec, r.st)
+			if err != nil {
+				return err
+			}
+			nr := rootOf(r.st)
+			fmt.Fprintf(w, "sibling x_r=%s x_to=%d x_root=%s %s\n", hx(r.root), to, hx(nr), f.String())
+			r.root = nr
+			st.Add("op", "sibling")
+			if to/spe != uint64(cur)/spe {
+				st.Add("point", "sibling-crosses-epoch-boundary")
+			}
+			if chain.ForkOfState(r.st) != preFork {
+				st.Add("point", "sibling-fork-upgrade")
+			}
+			recheckAll("after-sibling")
+			return nil
+		}
 		for i := 0; i < p.slots; i++ {
+			if i == 2 || rng.Intn(12) == 0 {
+				retain(map[bool]string{true: "early", false: "random-point"}[i == 2])
+			}
+			if rng.Intn(9) == 0 {
+				if err := sibling(); err != nil {
+					return err
+				}
+			}
 			if reloadLeft == 0 && (interesting != "" && rng.Intn(2) == 0 || rng.Intn(14) == 0) {
 				fmt.Fprintf(w, "reload x_pre=%s\n", hx(root))
 				st.Add("op", "reload")
@@ -203,6 +279,14 @@ func gen(o hreg.Opts, w *bufio.Writer) error {
 					st.Add("point", "block-with-topup")
 				}
 			}
+			if boundary {
+				recheckAll("after-live-epoch-boundary")
+			} else if rng.Intn(10) == 0 {
+				recheckAll("random-point")
+			}
+			if interesting != "" && rng.Intn(2) == 0 {
+				retain(interesting)
+			}
 			if reloadLeft > 0 {
 				reloadLeft--
 				if reloadLeft == 0 {
@@ -233,6 +317,32 @@ type session struct {
 	clone    *beacon.StandardUpgradeableBeaconState
 	cloneEpc *common.EpochsContext
 	root     common.Root
+	kept     []*keptPair
+}
+
+// keptPair: a copy of an older state with the EpochsContext.Clone() that belonged to it when it was retained.
+type keptPair struct {
+	st   *beacon.StandardUpgradeableBeaconState
+	epc  *common.EpochsContext
+	root common.Root
+}
+
+func (s *session) findKept(r string) *keptPair {
+	for _, k := range s.kept {
+		if hx(k.root) == r {
+			return k
+		}
+	}
+	return nil
+}
+
+func (k *keptPair) report(spec *common.Spec) string {
+	k.root = rootOf(k.st)
+	d, err := Of(spec, k.epc, k.st.BeaconState)
+	if err != nil {
+		return "err-dump"
+	}
+	return "ok root=" + hx(k.root) + " fresh=" + CompareWithFresh(spec, k.epc, k.st.BeaconState) + " " + d.Abbrev()
 }
 
 func (s *session) report() string {
@@ -381,6 +491,37 @@ func exec(o hreg.Opts, r *bufio.Scanner, w *bufio.Writer) error {
 				s.shadow, s.shadowEpc = &beacon.StandardUpgradeableBeaconState{BeaconState: st2}, epc2
 				s.clone, s.cloneEpc = chain.WrapState(s.live), s.liveEpc.Clone()
 				return "ok"
+			case "retain":
+				if s == nil || len(rest) != 0 || kv["x_pre"] != hx(s.root) {
+					return "bad-op"
+				}
+				s.kept = append(s.kept, &keptPair{st: chain.WrapState(s.live), epc: s.liveEpc.Clone(), root: s.root})
+				return "ok"
+			case "recheck":
+				if s == nil || len(rest) != 0 {
+					return "bad-op"
+				}
+				k := s.findKept(kv["x_r"])
+				if k == nil {
+					return "bad-op"
+				}
+				return k.report(s.spec)
+			case "sibling":
+				if s == nil || len(rest) != 0 || kv["x_root"] == "" {
+					return "bad-op"
+				}
+				k := s.findKept(kv["x_r"])
+				to, err := strconv.ParseUint(kv["x_to"], 10, 64)
+				if k == nil || err != nil {
+					return "bad-op"
+				}
+				if _, err := flat.Parse(kv); err != nil {
+					return "bad-op"
+				}
+				if err := common.ProcessSlots(ctx, s.spec, k.epc, k.st, common.Slot(to)); err != nil {
+					return "err"
+				}
+				return k.report(s.spec)
 			case "genesisfail":
 				return "generator-could-not-build-genesis"
 			case "genfail":
